@@ -35,6 +35,7 @@ class PresenceResourceService(BaseResourceServiceImpl):
     __slots__ = (
         'hostname',
         'presence',
+        '_request_times',
     )
 
     PAYLOAD_SCHEMA = (('endpoints', True, list),
@@ -45,6 +46,7 @@ class PresenceResourceService(BaseResourceServiceImpl):
         super(PresenceResourceService, self).__init__()
         self.hostname = sysinfo.hostname()
         self.presence = collections.defaultdict(dict)
+        self._request_times = {}
 
     @property
     def zkclient(self):
@@ -134,6 +136,8 @@ class PresenceResourceService(BaseResourceServiceImpl):
             if not self.presence[app_name]:
                 del self.presence[app_name]
 
+            self._request_times.pop(rsrc_id, None)
+
         return True
 
     def _request_time(self, rsrc_id):
@@ -156,9 +160,16 @@ class PresenceResourceService(BaseResourceServiceImpl):
         that container, so that the cleanup of the old one does not unregister
         it.
         """
+        # The time of a request is remembered: a request that was deleted but
+        # whose delete is still to be processed (its link is gone) keeps its
+        # place, otherwise any older request evaluated in the meantime would
+        # take its paths over, past the containers in between.
+        when = self._request_time(rsrc_id)
+        if when != -1:
+            self._request_times[rsrc_id] = when
         owner = self.presence[app_name].get(path)
         if (owner is None or owner == rsrc_id or
-                self._request_time(owner) <= self._request_time(rsrc_id)):
+                self._request_times.get(owner, -1) <= when):
             self.presence[app_name][path] = rsrc_id
 
     def _watch(self, rsrc_id, path):
